@@ -1,7 +1,16 @@
 (* C20 — trainable-GBS and chemistry numerics are self-consistent.
    Statements only, closed by `exact`, each followed by its axiom audit.  The theorems are about
    the model coq/C20/Model.v instantiated at the reals ([RO], Coquelicot derivatives); they
-   depend on the standard library's axiomatisation of R (listed in the check's trusted base). *)
+   depend on the standard library's axiomatisation of R (listed in the check's trusted base).
+
+   Full:     C20_jacobian, C20_kl_chain, C20_stochastic_chain (each with the GBS score identity at
+             the point as an explicit hypothesis), C20_score_identity_product (that hypothesis holds
+             for product states), C20_dynamics_passive, C20_dynamics_modes, C20_dynamics_group,
+             C20_vibronic_gain_is_inverse, C20_orbit_click_ok, C20_sample_length.
+   Refuted:  C20_vibronic_gain_refuted, C20_event_orbit_refuted, C20_sample_length_refuted
+             (the faithful model falsifies the property; recorded in known_findings.d/C20.json).
+   Partial (statement only, not proved here): C20_score_identity_statement — the score identity for
+             an arbitrary symmetric A needs the hafnian expansion of the GBS partition function. *)
 From Coq Require Import Reals List.
 From Coquelicot Require Import Coquelicot.
 From SFV Require Import C20.Model C20.Proofs.
@@ -15,3 +24,103 @@ Theorem C20_jacobian : forall (F : list (list R)) (th : list R) (k j : nat), (j 
             (nth j (nth k (jacobian RO F (weightsR F th)) []) 0).
 Proof. exact weight_deriv. Qed.
 Print Assumptions C20_jacobian.
+
+(* cost.py KL (PNR mode): with log P(S) = sum_k S_k ln w_k - ln Z(w) + c(S) (the WAW structure) and the score
+   identity at th, the vector assembled by KL.grad is the partial derivative of KL.evaluate in every coordinate j,
+   for every feature matrix, data set (non-empty, one entry per mode) and parameter vector *)
+Theorem C20_kl_chain : forall (F : list (list R)) (lnZ : list R -> R) (nbar : list R -> list R) (cst : list R -> R)
+    (data : list (list R)) (th : list R) (j : nat),
+  score_at F lnZ nbar th j ->
+  (j < length th)%nat -> data <> [] -> List.Forall (fun S => length S = length F) data ->
+  length (nbar (wts F th)) = length F ->
+  is_derive (fun x => klcost F lnZ cst data (upd th j x)) (nth j th 0)
+            (nth j (kl_grad RO (length th) (nbar (wts F th)) (col_mean RO (length F) (INR (length data)) data) (wts F th) (jac F th)) 0).
+Proof. exact kl_chain. Qed.
+Print Assumptions C20_kl_chain.
+
+(* cost.py Stochastic (PNR mode, fixed stored samples): Stochastic.grad is the partial derivative of
+   Stochastic.evaluate in every coordinate, h_reparametrized using sqrt(det ratio) = Z0 / Z(w) *)
+Theorem C20_stochastic_chain : forall (F : list (list R)) (lnZ : list R -> R) (nbar : list R -> list R) (lnZ0 : R)
+    (samples : list (R * list nat)) (th : list R) (j : nat),
+  score_at F lnZ nbar th j ->
+  (j < length th)%nat -> samples <> [] -> List.Forall (fun hs => length (snd hs) = length F) samples ->
+  length (nbar (wts F th)) = length F ->
+  is_derive (fun x => stcost F lnZ lnZ0 samples (upd th j x)) (nth j th 0) (nth j (stgrad F lnZ nbar lnZ0 samples th) 0).
+Proof. exact stochastic_chain. Qed.
+Print Assumptions C20_stochastic_chain.
+
+(* the hypothesis of the two chain theorems is satisfiable: it holds for every product state A = diag(a) *)
+Theorem C20_score_identity_product : forall (F : list (list R)) (a th : list R) (j : nat),
+  length a = length F -> (j < length th)%nat ->
+  (forall k, (k < length F)%nat -> (nth k (weightsR F th) 0 * nth k a 0) * (nth k (weightsR F th) 0 * nth k a 0) < 1) ->
+  score_at F (lnZ_prod a) (nbar_prod a) th j.
+Proof. exact score_product. Qed.
+Print Assumptions C20_score_identity_product.
+
+(* not proved: the score identity for the normalisation of an arbitrary GBS state, Z(w)^-2 = det(1 - (W A W)^2) *)
+Definition C20_score_identity_statement : Prop :=
+  forall (F : list (list R)) (lnZ : list R -> R) (nbar : list R -> list R) (th : list R) (j : nat),
+    (j < length th)%nat -> (* lnZ, nbar the normalisation and mean photon numbers of the state with matrix W A W *)
+    score_at F lnZ nbar th j.
+
+(* dynamics.py: TimeEvolution(w, t) is a product of phase rotations; for every number of modes, frequencies, time
+   and every state it leaves the photon number <a_i^dag a_i> and |<a_i>|^2 of every mode unchanged *)
+Theorem C20_dynamics_passive : forall (hundred c femto twopi : R) (w : list R) (t : R) (st : gstate (K := R)) (i : nat),
+  photons (run_rgates RO cos sin (time_evolution RO hundred c femto twopi w t) st) i = photons st i
+  /\ amp2 RO (run_rgates RO cos sin (time_evolution RO hundred c femto twopi w t) st) i = amp2 RO st i.
+Proof. exact time_evolution_conserves. Qed.
+Print Assumptions C20_dynamics_passive.
+
+(* ... acts on modes 0 .. n-1, once each, in order *)
+Theorem C20_dynamics_modes : forall (hundred c femto twopi : R) (w : list R) (t : R),
+  map fst (time_evolution RO hundred c femto twopi w t) = seq O (length w).
+Proof. exact time_evolution_modes. Qed.
+Print Assumptions C20_dynamics_modes.
+
+(* ... and its angles are additive in time (one-parameter group), vanishing at t = 0 *)
+Theorem C20_dynamics_group : forall (hundred c femto twopi : R) (w : list R) (t1 t2 : R),
+  te_thetas RO hundred c femto twopi w (t1 + t2)
+  = map2 Rplus (te_thetas RO hundred c femto twopi w t1) (te_thetas RO hundred c femto twopi w t2)
+  /\ te_thetas RO hundred c femto twopi w 0 = map (fun _ => 0) w.
+Proof. exact te_thetas_group. Qed.
+Print Assumptions C20_dynamics_group.
+
+(* vibronic.py: the position gain applied for a singular value s of the Duschinsky matrix J is 1/s, not s ... *)
+Theorem C20_vibronic_gain_is_inverse : forall s : R, 0 < s -> sgate_x_gain (vib_r s) = / s.
+Proof. exact vib_gain_inverse. Qed.
+Print Assumptions C20_vibronic_gain_is_inverse.
+
+(* ... so "the vibronic parameters reproduce the Duschinsky transformation" fails unless s = 1 (finding vibronic:squeeze-sign) *)
+Theorem C20_vibronic_gain_refuted : exists s : R, 0 < s /\ sgate_x_gain (vib_r s) <> s.
+Proof. exact vib_gain_refuted. Qed.
+Print Assumptions C20_vibronic_gain_refuted.
+
+Theorem C20_vibronic_gain_only_trivial : forall s : R, 0 < s -> sgate_x_gain (vib_r s) = s -> s = 1.
+Proof. exact vib_gain_only_trivial. Qed.
+Print Assumptions C20_vibronic_gain_only_trivial.
+
+(* similarity.py: the pattern handed to fock_prob has one entry per mode exactly when the orbit has at most
+   `modes` parts; otherwise prob_orbit_exact / prob_event_exact raise (finding similarity:event-orbit-longer-than-modes) *)
+Theorem C20_orbit_click_ok : forall (orbit : list nat) (modes : nat), orbit_ok orbit modes = true <-> (length orbit <= modes)%nat.
+Proof. exact orbit_ok_iff. Qed.
+Print Assumptions C20_orbit_click_ok.
+
+Theorem C20_event_orbit_refuted : exists (orbit : list nat) (modes : nat), fold_right Nat.add O orbit = 4%nat /\ orbit_ok orbit modes = false.
+Proof. exact orbit_refuted. Qed.
+Print Assumptions C20_event_orbit_refuted.
+
+(* vibronic.sample: samples have 2N entries exactly when the two-mode squeezing parameters are all zero or all
+   non-zero (finding vibronic:sample-length-mixed-t) *)
+Theorem C20_sample_length : forall z : list bool, z <> [] ->
+  (sample_len z = 2 * length z)%nat <-> (forallb (fun b => b) z = true \/ forallb negb z = true).
+Proof. exact sample_len_iff. Qed.
+Print Assumptions C20_sample_length.
+
+Theorem C20_sample_length_refuted : exists z : list bool, sample_len z <> (2 * length z)%nat.
+Proof. exact sample_len_refuted. Qed.
+Print Assumptions C20_sample_length_refuted.
+
+(* the hypotheses are inhabited *)
+Example C20_ex_product_hyp : forall k, (k < length [[1; 0]; [0; 1]])%nat ->
+  (nth k (weightsR [[1; 0]; [0; 1]] [0; 0]) 0 * nth k [/ 2; / 3] 0) * (nth k (weightsR [[1; 0]; [0; 1]] [0; 0]) 0 * nth k [/ 2; / 3] 0) < 1.
+Proof. exact ex_product_hyp. Qed.
